@@ -22,7 +22,7 @@ Arguments Raise {A} code.
          if e > end: e = e - step; break
          yield s, e
      if e < end: yield e, end                                                             *)
-(* step > 0.  fuel = end - start is enough because every iteration advances s by step >= 1;
+(* step > 0.  fuel = (end - start) / step + 1 iterations are enough (every iteration advances s by step);
    with fuel 0 we have s >= end, where the code yields nothing as well. *)
 Fixpoint fr_up (fuel : nat) (s e step : Z) : list iv :=
   match fuel with
@@ -34,7 +34,7 @@ Fixpoint fr_up (fuel : nat) (s e step : Z) : list iv :=
 
 Definition fill_range (s e step : Z) : Res (list iv) :=
   if step =? 0 then Raise 1
-  else if 0 <? step then Ok (fr_up (Z.to_nat (e - s)) s e step)
+  else if 0 <? step then Ok (fr_up (S (Z.to_nat ((e - s) / step))) s e step)
   else (* step < 0: range(start, end, step) counts down; at most one loop iteration yields *)
     if s <=? e then Ok (if s <? e then [(s, e)] else [])
     else if e <? s + step then Ok []
